@@ -9,7 +9,7 @@
 From Coq Require Import Permutation Sorted.
 From V.Lib Require Import Base MachInt.
 From V.Gen Require Import C17Consts.
-From V.C17 Require Import Model Spec Corr Wf ProofsArith ProofsShuffle ProofsAnchor ProofsWake ProofsClassify ProofsCanon Bridge.
+From V.C17 Require Import Model Spec Corr Wf ProofsArith ProofsShuffle ProofsAnchor ProofsWake ProofsClassify ProofsCanon ProofsPerm ProofsWake2 Bridge.
 Local Open Scope Z_scope.
 
 (* ------------------------------------------------------------------------------------------ *)
@@ -115,6 +115,9 @@ Theorem C17_shuffle_perm : forall (l : list Z) ws l' r,
   shuffle_in_place l ws = Ok (l', r) -> Permutation l' l.
 Proof. exact (@shuffle_perm Z). Qed.
 
+Theorem C17_is_perm_iff : forall a b, is_perm a b = true <-> Permutation a b.
+Proof. exact (fun a b => conj (is_perm_sound a b) (perm_is_perm a b)). Qed.
+
 Theorem C17_shuffle_indices_bijection : forall n ws l' r,
   shuffle_indices n ws = Ok (l', r) ->
   NoDup l' /\ length l' = n /\ forall x, In x l' <-> 0 <= x < Z.of_nat n.
@@ -123,33 +126,42 @@ Proof. exact shuffle_indices_bijection. Qed.
 (* ------------------------------------------------------------------------------------------ *)
 (** * Anchors *)
 
+(** [oc] = overflow checks on (debug profile: [age += 1] panics at u32::MAX) or off (release
+    profile: it wraps to 0). Every statement holds for both. *)
+
 (** a drawn anchor is a grid boundary strictly above the activation height, not before the
     funding note, strictly below the most recent boundary and within the age cap *)
-Theorem C17_anchor_in_candidates : forall I nu f tip,
+Theorem C17_anchor_in_candidates : forall oc I nu f tip,
   0 < I <= u32_max -> 0 <= nu <= u32_max -> 0 <= f <= u32_max -> 0 <= tip <= u32_max ->
-  forall ws b r, draw_anchor_boundary I nu f tip ws = Ok (Some b, r) -> anchor_ok I nu f tip b = true.
+  forall ws b r, draw_anchor_boundary oc I nu f tip ws = Ok (Some b, r) -> anchor_ok I nu f tip b = true.
 Proof. exact anchor_in_candidates. Qed.
 
 (** it is absent exactly when no such boundary exists — whatever the stream, consuming nothing *)
-Theorem C17_anchor_none_iff : forall I nu f tip,
+Theorem C17_anchor_none_iff : forall oc I nu f tip,
   0 < I <= u32_max -> 0 <= nu <= u32_max -> 0 <= f <= u32_max -> 0 <= tip <= u32_max ->
-  forall ws r, draw_anchor_boundary I nu f tip ws = Ok (None, r) <->
+  forall ws r, draw_anchor_boundary oc I nu f tip ws = Ok (None, r) <->
                r = ws /\ forall b, anchor_ok I nu f tip b = false.
 Proof. exact anchor_none_iff. Qed.
 
-(** with an admissible boundary the only other outcome is the generator running dry, and one
-    odd word is enough to terminate *)
-Theorem C17_anchor_total : forall I nu f tip,
+(** with an admissible boundary the only other outcome is [Panic] (the generator running dry, or
+    the age counter overflowing under overflow checks), and one odd word is enough to terminate *)
+Theorem C17_anchor_total : forall oc I nu f tip,
   0 < I <= u32_max -> 0 <= nu <= u32_max -> 0 <= f <= u32_max -> 0 <= tip <= u32_max ->
   forall ws, (exists b, anchor_ok I nu f tip b = true) ->
-  draw_anchor_boundary I nu f tip ws = Panic \/ exists b r, draw_anchor_boundary I nu f tip ws = Ok (Some b, r).
+  draw_anchor_boundary oc I nu f tip ws = Panic \/ exists b r, draw_anchor_boundary oc I nu f tip ws = Ok (Some b, r).
 Proof. exact anchor_total. Qed.
 
-Theorem C17_anchor_terminates_on_odd_word : forall I nu f tip,
+Theorem C17_anchor_terminates_on_odd_word : forall oc I nu f tip,
   0 < I <= u32_max -> 0 <= nu <= u32_max -> 0 <= f <= u32_max -> 0 <= tip <= u32_max ->
   forall w r, (exists b, anchor_ok I nu f tip b = true) -> Z.odd w = true ->
-  draw_anchor_boundary I nu f tip (w :: r) = Ok (Some (boundary_at_or_below I tip - I), r).
+  draw_anchor_boundary oc I nu f tip (w :: r) = Ok (Some (boundary_at_or_below I tip - I), r).
 Proof. exact anchor_first_odd. Qed.
+
+(** the two overflow profiles are indistinguishable on streams shorter than 2^26 words *)
+Theorem C17_anchor_profiles_agree : forall I lo hi mr ws age, 0 <= age ->
+  age + 64 * Z.of_nat (length ws) <= u32_max ->
+  sample_go true I lo hi mr age ws = sample_go false I lo hi mr age ws.
+Proof. exact sample_go_profiles. Qed.
 
 (** the executable emptiness test used on implementation outcomes is complete *)
 Theorem C17_age_candidates_complete : forall I nu f tip,
@@ -157,23 +169,44 @@ Theorem C17_age_candidates_complete : forall I nu f tip,
   forall b, anchor_ok I nu f tip b = true -> In b (age_candidates I tip).
 Proof. exact age_candidates_complete. Qed.
 
-Theorem C17_redraw_in_candidates : forall I prior bc,
+Theorem C17_redraw_in_candidates : forall oc I prior bc,
   0 < I <= u32_max -> 0 <= prior <= u32_max -> 0 <= bc <= u32_max ->
-  forall ws b r, redraw_anchor_boundary I prior bc ws = Ok (Some b, r) -> redraw_ok I prior bc b = true.
+  forall ws b r, redraw_anchor_boundary oc I prior bc ws = Ok (Some b, r) -> redraw_ok I prior bc b = true.
 Proof. exact redraw_in_candidates. Qed.
 
-Theorem C17_redraw_none_iff : forall I prior bc,
+Theorem C17_redraw_none_iff : forall oc I prior bc,
   0 < I <= u32_max -> 0 <= prior <= u32_max -> 0 <= bc <= u32_max ->
-  forall ws r, redraw_anchor_boundary I prior bc ws = Ok (None, r) <->
+  forall ws r, redraw_anchor_boundary oc I prior bc ws = Ok (None, r) <->
                r = ws /\ forall b, redraw_ok I prior bc b = false.
 Proof. exact redraw_none_iff. Qed.
 
-(** [earliest_broadcast_height] is the viability threshold of the candidate set *)
+(** the viability threshold of the candidate set, exactly: one interval past the lowest
+    candidate, in unbounded arithmetic *)
+Theorem C17_earliest_threshold : forall I nu f tip,
+  0 < I <= u32_max -> 0 <= nu <= u32_max -> 0 <= f <= u32_max -> 0 <= tip <= u32_max ->
+  ((exists b, anchor_ok I nu f tip b = true) <-> lowest_candidate_boundary I nu f + I <= tip).
+Proof. exact earliest_threshold. Qed.
+
+(** [earliest_broadcast_height] is that threshold whenever it fits u32 ... *)
 Theorem C17_earliest_viable : forall I nu f tip,
   0 < I <= u32_max -> 0 <= nu <= u32_max -> 0 <= f <= u32_max -> 0 <= tip <= u32_max ->
-  earliest_broadcast_height I nu f < u32_max ->
+  lowest_candidate_boundary I nu f + I <= u32_max ->
   ((exists b, anchor_ok I nu f tip b = true) <-> earliest_broadcast_height I nu f <= tip).
 Proof. exact earliest_viable. Qed.
+
+(** ... and when it does not, the function returns u32::MAX while no tip at all has a candidate:
+    the documented guarantee fails for tip = u32::MAX (witness below) *)
+Theorem C17_earliest_saturated : forall I nu f,
+  0 < I <= u32_max -> 0 <= nu <= u32_max -> 0 <= f <= u32_max ->
+  u32_max < lowest_candidate_boundary I nu f + I ->
+  earliest_broadcast_height I nu f = u32_max /\
+  forall tip b, 0 <= tip <= u32_max -> anchor_ok I nu f tip b = false.
+Proof. exact earliest_saturated. Qed.
+
+Theorem C17_earliest_saturation_gap_refuted :
+  earliest_broadcast_height 144 4294967150 0 = u32_max /\
+  forall b, anchor_ok 144 4294967150 0 u32_max b = false.
+Proof. exact earliest_saturation_gap. Qed.
 
 (* ------------------------------------------------------------------------------------------ *)
 (** * Sync wake-ups *)
@@ -215,6 +248,34 @@ Theorem C17_emit_spec : forall jc, 0 <= jc -> forall gs ws l r,
   Forall gwf gs -> Forall u64w ws -> emit jc gs ws = Ok (l, r) ->
   Forall2 (emitted jc) gs l /\ exists pre, ws = pre ++ r.
 Proof. exact emit_spec. Qed.
+
+(** the brute-force optimum of Spec.v (fewest deadlines/tip points piercing every window) is
+    the number of wake-ups of the schedule *)
+Theorem C17_min_piercing_is_schedule : forall m0 jc tip ts ws wk r, 0 <= jc -> Forall u64w ws ->
+  schedule_sync_wakeups m0 jc tip ts ws = Ok (wk, r) -> min_piercing m0 tip ts = Some (length wk).
+Proof. exact min_piercing_is_schedule. Qed.
+
+(** jitter: every wake-up is at most [jitter_cap] above the window opening of one of the
+    windows it covers (the latest one of its group) *)
+Theorem C17_wakeups_jitter : forall m0 jc tip ts ws, 0 <= jc -> Forall u64w ws ->
+  forall l r, wakeups_ann m0 jc tip ts ws = Ok (l, r) ->
+  Forall (fun p => exists w, In w (snd p) /\ fst p - w_ready w <= jc) l.
+Proof. exact wakeups_jitter. Qed.
+
+(** complete outcome characterisation: a feasible input gets a schedule on every stream once
+    enough (all-ones) words follow, so [Panic] only ever means "the generator ran dry" *)
+Theorem C17_wakeups_total : forall m0 jc tip ts, 0 <= jc <= u32_max ->
+  Forall (fun t => snd t <= u32_max) ts -> forall ws,
+  first_infeasible ts = None -> Forall u64w ws ->
+  exists wk r, schedule_sync_wakeups m0 jc tip ts (ws ++ ones (length ts)) = Ok (wk, r).
+Proof. exact wakeups_total. Qed.
+
+(** the executable checker used on implementation outcomes accepts the model's schedule *)
+Theorem C17_wakeups_ok_model : forall m0 jc tip ts ws, 0 <= jc -> Forall u64w ws ->
+  Forall (fun t => snd t <= u32_max) ts -> tip <= u32_max ->
+  forall wk r, schedule_sync_wakeups m0 jc tip ts ws = Ok (wk, r) ->
+  forall bf, bf_consistent m0 tip ts bf = true -> wakeups_ok m0 jc tip ts bf wk = true.
+Proof. exact wakeups_ok_model. Qed.
 
 (** infeasibility is reported exactly for the first transfer with no settle-then-prove height *)
 Theorem C17_wakeups_infeasible_iff : forall m0 jc tip ts ws id,
@@ -285,6 +346,22 @@ Theorem C17_canonical_equiv : forall v lo hi, 1 <= lo -> hi < 10 ^ 20 ->
   is_canonical_within v lo hi = canonical_spec v lo hi.
 Proof. exact canonical_equiv. Qed.
 
+(** the test always answers, except on value 0 under a non-positive lower bound, where the loop
+    never exits — KNOWN FINDING (class 2) *)
+Theorem C17_canonical_terminates : forall v lo hi, 0 <= v < 10 ^ 64 -> 1 <= lo \/ 1 <= v ->
+  is_canonical_within_opt v lo hi = Some (is_canonical_within v lo hi).
+Proof. exact canonical_opt_terminates. Qed.
+
+Theorem C17_canonical_zero_bound_refuted : forall hi, 0 <= hi -> is_canonical_within_opt 0 0 hi = None.
+Proof. exact canonical_zero_bound_refuted. Qed.
+
+Theorem C17_canonical_diverges_iff : forall v lo hi, 0 <= v < 10 ^ 64 ->
+  (is_canonical_within_opt v lo hi = None <-> v = 0 /\ lo <= 0 /\ 0 <= hi).
+Proof. exact canonical_opt_none_iff. Qed.
+
+Theorem C17_strip_zero_never_exits : forall fuel, strip_radix_opt fuel 0 = None.
+Proof. exact strip_zero_never_exits. Qed.
+
 Theorem C17_code_roundtrip : forall x, from_code (to_code x) = x.
 Proof. exact code_roundtrip. Qed.
 
@@ -302,10 +379,10 @@ Proof. exact bridge. Qed.
 (** * Non-vacuity *)
 Example expiry_ex : expiry_height 2000000 = 2039040 /\ expiry_height 4294967295 = 4294967295.
 Proof. split; reflexivity. Qed.
-Example anchor_ex : draw_anchor_boundary 144 1000 1100 2000 [6; 1] = Ok (Some 1584, [1]).
-Proof. reflexivity. Qed.
-Example anchor_none_ex : draw_anchor_boundary 144 1000 1100 1200 [6; 1] = Ok (None, [6; 1]).
-Proof. reflexivity. Qed.
+Example anchor_ex : forall oc, draw_anchor_boundary oc 144 1000 1100 2000 [6; 1] = Ok (Some 1584, [1]).
+Proof. intros []; reflexivity. Qed.
+Example anchor_none_ex : forall oc, draw_anchor_boundary oc 144 1000 1100 1200 [6; 1] = Ok (None, [6; 1]).
+Proof. intros []; reflexivity. Qed.
 Example shuffle_ex : exists l r, shuffle_indices 5 [11; 2 ^ 63; 5; 2 ^ 64 - 1; 0] = Ok (l, r) /\ l <> [0; 1; 2; 3; 4].
 Proof. eexists. eexists. split; [vm_compute; reflexivity | discriminate]. Qed.
 Example wakeups_ex :
